@@ -46,7 +46,7 @@ func autoDetectPacketSize(r io.Reader) (packetSize int, err error) {
 	// Read first bytes
 	const l = 193
 	var b = make([]byte, l)
-	shouldRewind, rerr := peek(r, b)
+	n, shouldRewind, rerr := peek(r, b)
 	if rerr != nil {
 		err = fmt.Errorf("astits: reading first %d bytes failed: %w", l, rerr)
 		return
@@ -91,6 +91,11 @@ func autoDetectPacketSize(r io.Reader) (packetSize int, err error) {
 			return
 		}
 	}
+	// The input ends inside its first packet: a truncated final packet is the end of the stream
+	if n < MpegTsPacketSize {
+		err = fmt.Errorf("astits: input ends inside the first packet: %w", io.ErrUnexpectedEOF)
+		return
+	}
 	err = fmt.Errorf("astits: only one sync byte detected in first %d bytes", l)
 	return
 }
@@ -98,7 +103,8 @@ func autoDetectPacketSize(r io.Reader) (packetSize int, err error) {
 // bufio.Reader can't be rewinded, which leads to packet loss on packet size autodetection
 // but it has handy Peek() method
 // so what we do here is peeking bytes for bufio.Reader and falling back to rewinding/syncing for all other readers
-func peek(r io.Reader, b []byte) (shouldRewind bool, err error) {
+// n is the number of bytes that could be looked at: less than len(b) when the input is shorter
+func peek(r io.Reader, b []byte) (n int, shouldRewind bool, err error) {
 	if br, ok := r.(*bufio.Reader); ok {
 		var bs []byte
 		bs, err = br.Peek(len(b))
@@ -113,20 +119,18 @@ func peek(r io.Reader, b []byte) (shouldRewind bool, err error) {
 		if err != nil {
 			if err == io.EOF && len(bs) > 0 {
 				// An input shorter than b is not an error here: the caller decides based on what could be read
-				copy(b, bs)
-				return false, nil
+				return copy(b, bs), false, nil
 			}
 			// Consume what has been looked at, like a plain reader does, so that the next attempt makes progress
 			br.Discard(len(bs))
 			return
 		}
-		copy(b, bs)
-		return false, nil
+		return copy(b, bs), false, nil
 	}
 
 	// A single Read is allowed to return less than what was asked for
 	// An input shorter than b is not an error here: the caller decides based on what could be read
-	if _, err = io.ReadFull(r, b); err == io.ErrUnexpectedEOF {
+	if n, err = io.ReadFull(r, b); err == io.ErrUnexpectedEOF {
 		err = nil
 	}
 	shouldRewind = true
